@@ -798,6 +798,29 @@ func exec(line string) (res h.Result) {
 			res.Oracle = fmt.Sprintf("check-wrong: want %v got %v", want, got)
 		}
 		res.Class = "check-" + res.Impl
+	case "tors": // tors <pubpoly> <beta> <i> <v> <kind>: as check, but the first commitment carries a small-order component
+		p, beta, i, v, kind := parsePoly(w[1]), h.BigDec(w[2]), int64(h.Atoi(w[3])), h.BigDec(w[4]), h.Atoi(w[5])
+		T := p.g.g.Point()
+		if err := T.UnmarshalBinary(h.UnHex(smallOrder[kind%len(smallOrder)])); err != nil {
+			panic("small-order point does not decode: " + err.Error())
+		}
+		cs := make([]kyber.Point, len(p.c))
+		for j, c := range p.c {
+			cs[j] = p.g.pt(c)
+		}
+		cs[0] = p.g.g.Point().Add(cs[0], T)
+		pub := share.NewPubPoly(p.g.g, p.g.pt(beta), cs)
+		got := pub.Check(&share.PriShare{I: int(i), V: p.g.sc(v)})
+		res.Impl = boolStr(got)
+		// Eval(i) = f(i+1)·B + T lies outside <B> (T has order 2, 4 or 8, the base has odd prime order):
+		// it equals v·beta·B for NO scalar v, so no share value may be accepted
+		if got {
+			res.Oracle = fmt.Sprintf("tors-share-accepted: Check accepted a share against a commitment with a small-order component (kind %d)", kind)
+		}
+		if T.Equal(p.g.g.Point().Null()) || !p.g.g.Point().Mul(p.g.sc(big.NewInt(8)), T).Equal(p.g.g.Point().Null()) {
+			res.Oracle = "tors-bad-case: the offered point is not a non-trivial small-order point"
+		}
+		res.Class = "tors-" + res.Impl
 	case "recsecret":
 		g, t, n, sh := getGrp(w[1]), h.Atoi(w[2]), h.Atoi(w[3]), parseShares(w[4])
 		res.Impl, res.Oracle = doRecSecret(g, sh, t, n)
@@ -816,6 +839,14 @@ func exec(line string) (res h.Result) {
 		panic("bad case line")
 	}
 	return
+}
+
+// encodings of Ed25519 points of order 2, 4, 4, 8 (the torsion subgroup the cofactor 8 leaves)
+var smallOrder = []string{
+	"ecffffffffffffffffffffffffffffffffffffffffffffffffffffffffffff7f",
+	"0000000000000000000000000000000000000000000000000000000000000000",
+	"0000000000000000000000000000000000000000000000000000000000000080",
+	"26e8958fc2b227b045c3f489f2ef98f0d5dfac05d3c63339b13802886d53fc05",
 }
 
 var (
@@ -1201,6 +1232,12 @@ func gen(tier string, rng *h.Rng, emit func(string)) {
 		emit(fmt.Sprintf("check %s %s %d %s", polyLit(g, pubc), beta, i, modq(new(big.Int).Add(v, big.NewInt(1)), g.q)))
 		emit(fmt.Sprintf("check %s %s %d %s", polyLit(g, pubc), beta, i+1, v))
 		emit(fmt.Sprintf("check %s %s %d 0", polyLit(g, pubc), beta, i))
+		// Ed25519 only (cofactor 8): the same commitment polynomial with a small-order component added to
+		// its first commitment; no share value may check against it (review B #4)
+		if g.tag == "ed" && len(c) > 0 {
+			emit(fmt.Sprintf("tors %s %s %d %s %d", polyLit(g, pubc), beta, i, v, k))
+			emit(fmt.Sprintf("tors %s %s %d %s %d", polyLit(g, pubc), beta, i, modq(new(big.Int).Add(v, big.NewInt(1)), g.q), k+1))
+		}
 	}
 	emit("primul g2:- g2:-")
 	emit("primul ed:- ed:-")
